@@ -131,6 +131,9 @@ func nontrivial(c Case) bool {
 func TestCheck(t *testing.T) {
 	r := vkit.Start("C06")
 	defer r.Finish(t)
+	if r.ReplayCold() {
+		return
+	}
 	if r.Replay != "" {
 		var c Case
 		if err := r.LoadReplay(&c); err != nil {
@@ -386,6 +389,8 @@ func TestCheck(t *testing.T) {
 	})
 
 	// Phase C: rapid - long identifier lists with shared prefixes and 1-25 digit numeric identifiers.
+	r.ColdPhase(coldFirst)
+
 	r.Phase("C: rapid long identifier lists", func() {
 		r.Rapid(t, "rapid-pairs", 0, r.Pick(50000, 2000000), func(rt *rapid.T, w *vkit.W) vkit.RapidCase {
 			ident := rapid.Custom(func(rt *rapid.T) string {
